@@ -23,7 +23,7 @@ RULE = ("every ordered pair of the 16 public classes plus {int, float, d-vector,
         "table DOC -> result class/ndarray/bool/float; pair not in DOC with operands of different classes must raise; a "
         "returned None/NotImplemented/identity/foreign-element object is a violation; stated pairs must return the stated "
         "class and the reference value. Non-trivial: different classes, or multi-valued, or subclass-related pair.")
-RULE = RULE + probes.RULE_TEXT + (probes.AUG_TEXT if PROPERTY_ID in probes.AUG_PROPS else "") + probes.VARIANT_TEXT
+RULE = RULE + probes.RULE_TEXT + (probes.AUG_TEXT if PROPERTY_ID in probes.AUG_PROPS else "") + probes.VARIANT_TEXT + probes.OWN_TEXT
 ASSUMPTIONS = ["ndarray as LEFT operand: no pair is documented, every combination (10 shapes with at least two elements x 6 operators x every class) must raise (sub-check ndarray_left); 0-d and 1-element arrays are scalar-like and not judged", "spatial-vector * int (vector on the left) is the inherited list repetition: judged as a list operation (own elements repeated), not as arithmetic; int * spatial-vector goes through the class's own __rmul__ and must raise", "same-class cells whose only meaning is the inherited list concatenation/repetition are reported (label same_class_undocumented), not judged",
                "documented pairs outside the statement (tier P3) may raise: recorded under label documented_but_raises, not a violation"]
 
@@ -305,8 +305,86 @@ def _larr(case):
     return c.out
 
 
+def gen_linebool(tier):
+    for rel in ("skew", "intersecting", "parallel", "antiparallel", "same", "rescaled"):
+        for op in ("^", "|", "==", "!="):
+            for k in (1.0, 2.5):
+                yield {"kind": "linebool", "rel": rel, "op": op, "k": k, "L": "Plucker", "R": "Plucker", "nl": 1, "nr": 1}
+
+
+def _linebool(case):
+    """Plucker ^ | == != between two lines answer with a bool whatever the geometric relation of the lines (never None)"""
+    rel, op, k = case["rel"], case["op"], case["k"]
+    c = Checker("linebool", rel=rel, op=op)
+    p1, w1 = np.array([1.0, 2.0, 3.0]), np.array([0.0, 0.6, 0.8]) * k
+    if rel == "skew":
+        p2, w2 = np.array([4.0, -1.0, 0.5]), np.array([1.0, 0.0, 0.0])
+    elif rel == "intersecting":
+        p2, w2 = p1 + w1 * 0.7, np.array([1.0, 0.0, 0.0]) * k
+    elif rel == "parallel":
+        p2, w2 = p1 + np.array([1.0, 0.0, 0.0]), w1 * 2.0
+    elif rel == "antiparallel":
+        p2, w2 = p1 + np.array([1.0, 0.0, 0.0]), -w1
+    elif rel == "same":
+        p2, w2 = p1.copy(), w1.copy()
+    else:
+        p2, w2 = p1 + w1 * 1.3, w1 * 3.0
+    l1, l2 = L.Plucker.PointDir(list(p1), list(w1)), L.Plucker.PointDir(list(p2), list(w2))
+    ok, r = c.lib("Plucker %s Plucker" % op, lambda: FN[op](l1, l2))
+    if ok:
+        c.true("Plucker %s Plucker/bool" % op, isinstance(r, (bool, np.bool_)), "%s lines: l1 %s l2 gave %r (%s)" % (rel, op, r, type(r).__name__))
+    return c.out
+
+
+def gen_scalarvalue(tier):
+    for op in ("*", "+", "-", "/"):
+        for k in POSES + QUATS + TWISTS:
+            for n in ((1, 3) if k in LISTY else (1,)):
+                for side in ("left", "right"):
+                    yield {"kind": "scalarvalue", "op": op, "K": k, "n": n, "side": side, "vals": DEFAULT_VALS, "L": k, "R": "int", "nl": n, "nr": 1}
+
+
+def _signature(r):
+    if isinstance(r, np.ndarray):
+        return ("ndarray", r.shape)
+    if isinstance(getattr(r, "data", None), list):
+        return (type(r).__name__, len(r.data), tuple(np.shape(x) for x in r.data))
+    if isinstance(r, list):
+        return ("list", len(r), tuple(_signature(x) for x in r))
+    return (type(r).__name__,)
+
+
+def _scalarvalue(case):
+    """what a scalar combined with an object returns (class, length, shapes - or an exception) does not depend on the VALUE of
+    the scalar: 0, 0.0, 1, -1 behave like 2 / 2.5"""
+    op, k, n, side = case["op"], case["K"], case["n"], case["side"]
+    c = Checker("scalarvalue", op=op, K=k, n=n, side=side)
+
+    def run(sv):
+        obj, _ = build(k, n, case["vals"], "L")
+        try:
+            r = FN[op](sv, obj) if side == "left" else FN[op](obj, sv)
+        except Exception as e:  # noqa
+            return ("raise",)
+        return _signature(r)
+    for ref_, probes_ in ((2, (0, 1, -1)), (2.5, (0.0, 1.0, -1.0))):
+        want = run(ref_)
+        for sv in probes_:
+            if op == "/" and side == "right" and sv == 0:
+                continue
+            got = run(sv)
+            if got != want:
+                c.fail("%s %s %s/scalar_value" % (("s", op, k) if side == "left" else (k, op, "s")),
+                       "with the scalar %r the result is %r, with %r it is %r" % (sv, got, ref_, want), scalar=repr(sv))
+    return c.out
+
+
 def check_case(case):
-    if case.get("kind") in ("hist", "aug", "variant"):
+    if case.get("kind") == "scalarvalue":
+        return _scalarvalue(case)
+    if case.get("kind") == "linebool":
+        return _linebool(case)
+    if case.get("kind") in ("hist", "aug", "variant", "own"):
         return probes.run(case, PROPERTY_ID)
     if case.get("kind") == "larr":
         return _larr(case)
@@ -498,8 +576,12 @@ def s_cells():
 
 
 def classify(case):
-    if case.get("kind") in ("hist", "aug", "variant"):
+    if case.get("kind") in ("hist", "aug", "variant", "own"):
         return probes.classify(case)
+    if case.get("kind") == "linebool":
+        return {"kind:linebool": True, "op:" + case["op"]: True, "rel:" + case["rel"]: True, "nontrivial": True}
+    if case.get("kind") == "scalarvalue":
+        return {"kind:scalarvalue": True, "op:" + case["op"]: True, "multi": case["n"] > 1, "nontrivial": True}
     if case.get("kind") == "larr":
         return {"kind:larr": True, "op:" + case["op"]: True, "multi": case["nr"] > 1, "nontrivial": True}
     lk, rk, op = case["L"], case["R"], case["op"]
@@ -521,6 +603,8 @@ def subchecks(tier):
     return [
         Sub("cells", gen=gen_cells, shards=(8, 16)),
         Sub("ndarray_left", gen=gen_larr, shards=(4, 8)),
+        Sub("scalar_values", gen=gen_scalarvalue, shards=(2, 4)),
+        Sub("line_predicates", gen=gen_linebool, shards=(1, 2)),
         Sub("values", strategy=s_cells(), n=(400, 20000), shards=(12, 16)),
         *probes.subs(PROPERTY_ID),
     ]
